@@ -286,7 +286,7 @@ def _is_oob_exc(exc, api):
 class Driver(object):
     """One object under test (InterpND or a Problem around a meta-model component)."""
 
-    def __init__(self, api, method, grids, table, extrap, vec=1):
+    def __init__(self, api, method, grids, table, extrap, vec=1, resetup=False):
         self.api = api
         self.d = len(grids)
         self.vec = vec
@@ -300,7 +300,14 @@ class Driver(object):
             p = om.Problem(reports=None)
             names = ['x%d' % i for i in range(self.d)]
             if api == 'comp':
-                comp = om.MetaModelStructuredComp(method=method, extrapolate=extrap, vec_size=vec)
+                m0, e0 = method, extrap
+                if resetup:
+                    # first set up (and run) with other options, then change them and set up again
+                    m0 = 'slinear' if method != 'slinear' else 'lagrange2'
+                    if min(len(g) for g in garr) < 3:
+                        m0 = 'slinear'
+                    e0 = not extrap
+                comp = om.MetaModelStructuredComp(method=m0, extrapolate=e0, vec_size=vec)
                 for nm, g in zip(names, garr):
                     comp.add_input(nm, float(g[0]), training_data=g)
                 comp.add_output('f', 1.0, training_data=np.array(table))
@@ -315,6 +322,12 @@ class Driver(object):
             p.model.add_subsystem('c', comp, promotes=['*'])
             p.setup()
             p.final_setup()
+            if resetup and api == 'comp':
+                p.run_model()
+                comp.options['method'] = method
+                comp.options['extrapolate'] = extrap
+                p.setup()
+                p.final_setup()
             self.obj = p
             self.names = names
 
@@ -462,7 +475,8 @@ def run_config(cfg, pts):
     vec = 3 if mode == 'vec3' else 1
 
     def fresh():
-        return Driver(api, method, grids, table, extrap, vec=vec)
+        return Driver(api, method, grids, table, extrap, vec=vec,
+                      resetup=mode.endswith('_resetup'))
 
     try:
         drv = fresh()
@@ -730,6 +744,9 @@ def make_violation(cfg, pts, f):
 def _modes(api):
     if api == 'interp':
         return ('batch', 'single')
+    if api == 'comp':
+        # '_resetup': the component is first set up and run with other options (method, extrapolate)
+        return ('vec1', 'vec3', 'vec1_resetup')
     return ('vec1', 'vec3')
 
 
